@@ -822,7 +822,7 @@ class Interp:
                 if not recv_list:
                     return ("None",)
                 return ("Some", recv_list[0] if m != "last" else recv_list[-1])
-            if m == "get" and args and isinstance(args[0], int):
+            if m in ("get", "get_mut") and args and isinstance(args[0], int):
                 return ("Some", recv_list[args[0]]) if 0 <= args[0] < len(recv_list) else ("None",)
             if m == "skip" and args and isinstance(args[0], int):
                 return ("list", list(recv_list)[args[0]:])
@@ -1006,7 +1006,7 @@ class Interp:
                 return len(raw)
             if m in ("iter", "to_vec", "as_ref"):
                 return ("list", list(raw))
-            if m == "get" and args and isinstance(args[0], int):
+            if m in ("get", "get_mut") and args and isinstance(args[0], int):
                 return ("Some", raw[args[0]]) if 0 <= args[0] < len(raw) else ("None",)
             if m == "is_empty":
                 return len(raw) == 0
